@@ -683,6 +683,16 @@ func TestVFC13Shape(t *testing.T) {
 			doc["schema_version"] = vfList{v}
 		}
 
+		if _, open := vfkit.KnownOpen("C13", vfSigNullObject); open {
+			// an open known finding: build the document without that shape
+			for _, k := range vfObjectSections {
+				if val, has := doc[k]; has && val == nil {
+					delete(doc, k)
+					vfC13.Excluded(vfSigNullObject)
+				}
+			}
+		}
+
 		st := vfDrawStyle(t)
 		body, err := vfText(t, doc, st)
 		if err != nil {
@@ -787,6 +797,12 @@ func TestVFC13Bytes(t *testing.T) {
 			c.in, c.ver = in, vfVersionOf(in)
 		}
 		c.aliased = vfHasAlias(body)
+		if sig := vfKnownShape(body, in); sig != "" {
+			// an open known finding; the regression tests demonstrate it
+			vfC13.Excluded(sig)
+
+			return
+		}
 
 		vfC13.Eval()
 		vfC13.Class("class:a_bytes")
